@@ -82,6 +82,8 @@ RD_KERNELS = {
 import translate_parser as TP
 PARSER_OPS = {
     "ParserOps": dict(imports=["DateutilVerif.Model.ParserPy"], file="parser/_parser.py", specs=TP.PARSER_SPECS),
+}
+
 # "RrPy" kernels (harness/translate_rr.py): the integer helpers of rrule.py (C01)
 import translate_rr as TRR
 RR_KERNELS = {
@@ -165,6 +167,11 @@ def gen_parser_ops(repo, out, report):
             body = "/- GENERATED by harness/gen.py (translate_parser.py) from /repo's working tree — do not edit. -/\n"
             body += "".join("import %s\n" % i for i in cfg["imports"])
             body += "\nset_option linter.unusedVariables false\n\nnamespace Gen.P\n\n" + text + "\nend Gen.P\n"
+            changed = write_if_changed(path, body)
+            report["kernels"][mod] = {"ok": True, "fingerprints": fps, "changed": changed}
+        except (T.Untranslatable, SyntaxError, OSError) as ex:
+            report["kernels"][mod] = {"ok": False, "error": "%s: %s" % (type(ex).__name__, ex)}
+
 def gen_rr_kernels(repo, out, report):
     src = os.path.join(repo, "src", "dateutil")
     for mod, cfg in RR_KERNELS.items():
@@ -178,6 +185,9 @@ def gen_rr_kernels(repo, out, report):
             report["kernels"][mod] = {"ok": True, "fingerprints": fps, "changed": changed}
         except (T.Untranslatable, SyntaxError, OSError) as ex:
             report["kernels"][mod] = {"ok": False, "error": "%s: %s" % (type(ex).__name__, ex)}
+        except Exception as ex:      # a source shape the translator does not anticipate: a broken tie for C01 only, never a crash of gen.py
+            report["kernels"][mod] = {"ok": False, "error": "Untranslatable: translator error %s: %s" % (type(ex).__name__, ex)}
+
 def gen_wd_kernels(repo, out, report):
     """dateutil._common.weekday (+ rrule.weekday.__init__) -> Generated/WdOps.lean (harness/translate_wd.py; C16 / C13)"""
     import translate_wd as TW
@@ -205,8 +215,6 @@ def gen_gettz(repo, out, report):
         report["kernels"]["GettzNocache"] = {"ok": True, "fingerprints": fps, "changed": changed}
     except (T.Untranslatable, SyntaxError, OSError) as ex:
         report["kernels"]["GettzNocache"] = {"ok": False, "error": "%s: %s" % (type(ex).__name__, ex)}
-        except Exception as ex:      # a source shape the translator does not anticipate: a broken tie for C01 only, never a crash of gen.py
-            report["kernels"][mod] = {"ok": False, "error": "Untranslatable: translator error %s: %s" % (type(ex).__name__, ex)}
 
 def gen_factory(repo, out, report):
     """zone-factory method bodies -> statement IR (harness/translate_factory.py; C18)"""
